@@ -149,8 +149,9 @@ func replayModel(pkgPath, fn string, mdl map[string]interface{}, tier string, ra
 	case strings.Contains(out, "VERIF-ASSUME-VIOLATED"):
 		return "assume-violated", out
 	case strings.Contains(out, "VERIF-ASSERT-FAILED"):
-		m := regexp.MustCompile(`VERIF-ASSERT-FAILED: (.*?)(?: \[recovered\])?\n`).FindStringSubmatch(out)
-		return "assert:" + strings.TrimSpace(m[1]), out
+		// nested helpers re-panic with a more specific message: the outermost (last) one counts
+		ms := regexp.MustCompile(`VERIF-ASSERT-FAILED: (.*?)(?: \[recovered\])?\n`).FindAllStringSubmatch(strings.SplitN(out, "goroutine ", 2)[0], -1)
+		return "assert:" + strings.TrimSpace(ms[len(ms)-1][1]), out
 	case strings.Contains(out, "WARNING: DATA RACE"):
 		return "race", out
 	case strings.Contains(out, "panic:"):
